@@ -156,6 +156,50 @@ def gen_forest(rng, records=None, max_depth=4, max_children=5, p_filler=0.15, p_
     return forest
 
 
+def repeat_names(rng, forest, p=0.3, allow_related=False):
+    """Rename some named items (level 01-49, not the roots) to a name already used earlier in the same
+    record, in place.  With allow_related False the donor name is never that of an ancestor, a
+    descendant or a sibling of the item (legal COBOL: the same name under different parents, to be
+    qualified with OF); with True any earlier name may be taken.  REDEFINES clauses of siblings that
+    named the item follow the renaming.  Returns the number of renamings."""
+    count = 0
+    for root in forest:
+        if root["level"] in (66, 77, 88):
+            continue
+        seen = []                     # names earlier in this record, in order
+
+        def sub_names(n):
+            out = set()
+            for c in n["children"]:
+                if c["name"]:
+                    out.add(c["name"])
+                out |= sub_names(c)
+            return out
+
+        def walk(n, ancestors, siblings):
+            nonlocal count
+            if n["level"] in (66, 77, 88):
+                return
+            if n is not root and n["name"] and seen and rng.random() < p:
+                banned = set()
+                if not allow_related:
+                    banned = set(ancestors) | {x["name"] for x in siblings if x is not n and x["name"]} | sub_names(n)
+                cands = [x for x in seen if x not in banned and x != n["name"]]
+                if cands:
+                    old, new = n["name"], rng.choice(cands)
+                    for x in siblings:
+                        if x is not n and x["redefines"] == old:
+                            x["redefines"] = new
+                    n["name"] = new
+                    count += 1
+            if n["name"]:
+                seen.append(n["name"])
+            for c in n["children"]:
+                walk(c, ancestors + ([n["name"]] if n["name"] else []), n["children"])
+        walk(root, [], [root])
+    return count
+
+
 def entries(forest):
     """the nodes in source order (preorder; 88s follow their item)"""
     out = []
